@@ -9,7 +9,7 @@ Import ListNotations.
 Require Import Fggs.Model.Conj Fggs.Model.TreeDec Fggs.Proofs.TreeDec_tdok Fggs.Model.Factorize
                Fggs.Proofs.Fz_fresh Fggs.Proofs.Fz_rooted Fggs.Proofs.Fz_struct Fggs.Proofs.Fz_main
                Fggs.Proofs.Fz_bridge Fggs.Proofs.Fz_final Fggs.Proofs.Fz_inline Fggs.Proofs.Fz_labels
-               Fggs.Model.FactorizeCheck Fggs.Proofs.Fz_glue Fggs.Proofs.Fz_examples.
+               Fggs.Model.FactorizeCheck Fggs.Proofs.Fz_glueok Fggs.Proofs.Fz_examples.
 
 (** * C05_edges_once
     For EVERY rule, EVERY valid tree decomposition of its primal graph (whatever method produced
@@ -259,13 +259,9 @@ Proof. exact @fixpoint_unfold_iff. Qed.
 Print Assumptions C05_unfold_fixpoints.
 (** ... and for a non-recursive grammar the sum-product of EVERY nonterminal (stabilised Kleene
     iterate = sum over all derivation trees, C01) is unchanged.
-    FULL STATEMENT (open, see notes/C05.md): for every FGG, every valid decomposition and every
-    order, [Zk] of [to_sp_grammar] of the factorised grammar equals [Zk] of [to_sp_grammar] of
-    the original one on every original nonterminal.  Proved: one folding/unfolding step
-    (this theorem) and that the factorised rule inlines to the original one ([C05_inline]);
-    open: the composition (the id-based inlining of [C05_inline] is an iteration of the
-    positional [inline_rule] up to a permutation of the node positions).  Covered per case by
-    the check function [fz_sp_check] (exact [Ztab] of both grammars). *)
+    This is ONE folding/unfolding step; the statement for the whole factorisation is
+    [C05_sum_product_nonrec] / [C05_sum_product_recursive] below (proved by the junction-tree
+    argument of [C05_sum_product_rule], not by iterating this step). *)
 Theorem C05_sum_product_partial :
   forall (R : Type) (o : sr_ops R), sr_ring o ->
   forall G' ir rr es1 Y att es2 c, unfolding G' ir rr es1 Y att es2 c ->
@@ -290,12 +286,8 @@ Require Import Fggs.Proofs.Fz_treeval.
     node is summed in the topmost bag containing it, [Fz_wv.v]; every edge multiplied in where it
     is placed, [C05_edges_once]; sums over disjoint variable sets commute with products,
     [Fz_ao.v].)
-    STILL OPEN for the grammar-level statement "[Zk] of [to_sp_grammar] before = after on every
-    original nonterminal": assembling this rule-level theorem over all rules of a grammar (the
-    fresh nonterminals have exactly one rule each in the whole grammar, the label numbering of
-    the factorised grammar extends the original one) and, for recursive grammars, the passage
-    from "same solutions" to the limit of the Kleene iterates.  Covered per case by
-    [fz_sp_check]. *)
+    The grammar-level statements assembled from this theorem: [C05_sum_product_nonrec],
+    [C05_sum_product_recursive], [C05_sum_product_fixpoints] at the end of this file. *)
 Theorem C05_sum_product_rule :
   forall (R : Type) (o : sr_ops R), sr_ring o ->
   forall r t ords labels rs ls G lab (e' : env (R:=R)),
@@ -311,3 +303,246 @@ Print Assumptions C05_sum_product_rule.
 Theorem C05_to_sp_rule_is_tr : forall tbl c, to_sp_rule tbl c = tr (lab_idx tbl) c.
 Proof. exact to_sp_rule_tr. Qed.
 Print Assumptions C05_to_sp_rule_is_tr.
+
+Require Import Fggs.Proofs.SP_refine Fggs.Proofs.Fz_post Fggs.Proofs.Fz_glue Fggs.Proofs.Fz_grammar
+               Fggs.Proofs.Fz_gfinal Fggs.Proofs.Fz_gexamples.
+Require Fggs.Proofs.SP_mono.
+
+(** * C05_sum_product, GRAMMAR level
+    [g] is the input grammar (Model/Factorize.v), [G = to_sp_grammar doms g] its translation to the
+    positional grammars of Model/SumProduct.v, [g'] what the model of [factorize_hrg] /
+    [factorize_fgg] returns, [G' = to_sp_grammar doms g'].  Hypotheses throughout:
+    [wf_grammar G = true] (what HRG guarantees: labels in the tables, attachments and externals
+    among the nodes, types match), [ids_are_positions g] (node ids = positions, as the harness
+    numbers them), [orc_ok g (orc m)]: the oracle gives for every rule, in [all_rules()] order,
+    a well-formed valid tree decomposition ([valid_td], C10) -- with ANY iteration orders.
+    Domains may be empty. *)
+
+(** the gluing done by [factorize_hrg] / [factorize_fgg] ([fz_spec]): the new label table is the
+    old one with labels appended; the new rules are the rules returned by the [factorize_rule]
+    calls (a permutation: regrouped by left-hand side); every call was made with a label set
+    containing the grammar's labels; the fresh names are pairwise different over the WHOLE
+    grammar; every left-hand side is in the label table; same start symbol *)
+Theorem C05_glue_hrg :
+  forall g orc g', (forall r, In r (fh_all_rules g) -> Fz_final.wf_rule r) -> orc_ok g orc ->
+    factorize_hrg_with g orc = Ok g' -> exists cs, fz_spec g g' cs.
+Proof. exact factorize_hrg_spec. Qed.
+Print Assumptions C05_glue_hrg.
+Theorem C05_glue_fgg :
+  forall m g orc f, (forall r, In r (fh_all_rules (ff_hrg g)) -> Fz_final.wf_rule r) -> orc_ok (ff_hrg g) (orc m) ->
+    factorize_fgg_model m g orc = Ok f -> exists cs, fz_spec (ff_hrg g) (ff_hrg f) cs.
+Proof. exact factorize_fgg_spec. Qed.
+Print Assumptions C05_glue_fgg.
+
+(** the label numbering of the factorised grammar extends the original one: original labels keep
+    their numbers, fresh ones are appended (no hypothesis on the decompositions) *)
+Theorem C05_label_numbering :
+  forall g orc g', factorize_hrg_with g orc = Ok g' ->
+    (exists ex, fh_elabels g' = fh_elabels g ++ ex)
+    /\ forall l, In l (fh_elabels g) -> lab_idx (fh_elabels g') l = lab_idx (fh_elabels g) l.
+Proof. exact factorize_hrg_numbering. Qed.
+Print Assumptions C05_label_numbering.
+Theorem C05_label_numbering_fgg :
+  forall m g orc f, factorize_fgg_model m g orc = Ok f ->
+    (exists ex, fh_elabels (ff_hrg f) = fh_elabels (ff_hrg g) ++ ex)
+    /\ forall l, In l (fh_elabels (ff_hrg g)) -> lab_idx (fh_elabels (ff_hrg f)) l = lab_idx (fh_elabels (ff_hrg g)) l.
+Proof. exact factorize_fgg_numbering. Qed.
+Print Assumptions C05_label_numbering_fgg.
+
+(** the new rules of one call are in post-order: every edge of the rule at position q is an edge
+    of the original rule or the use of the rule at an earlier position ([call_facts], which also
+    collects what [C05_edges_once] says about the left-hand sides) *)
+Theorem C05_call_facts :
+  forall r t ords labels front last ls,
+    Fz_final.wf_rule r -> ftd_wfb t = true -> valid_td (primal r) (td_of_ftd t) ->
+    factorize_rule_model r labels t ords = Ok (front ++ [last], ls) ->
+    call_facts r labels front last ls.
+Proof. exact call_facts_model. Qed.
+Print Assumptions C05_call_facts.
+
+(** rule level, at EVERY external assignment (also those that are not restrictions of an in-range
+    assignment of the nodes, also with empty domains): in any environment that gives every fresh
+    nonterminal the value of its one rule, the new rule for the original left-hand side has the
+    value of the original rule *)
+Theorem C05_sum_product_rule_all :
+  forall (R : Type) (o : sr_ops R), sr_ring o ->
+  forall r t ords labels front last ls G lab (e' : env (R:=R)),
+    Fz_final.wf_rule r -> fr_ids r = seq 0 (length (fr_nodes r)) ->
+    ftd_wfb t = true -> valid_td (primal r) (td_of_ftd t) ->
+    factorize_rule_model r labels t ords = Ok (front ++ [last], ls) ->
+    (forall c, In c front -> forall zeta, e' (lab (fr_lhs c)) zeta = rule_val o G e' (tr lab c) zeta) ->
+    forall xi, rule_val o G e' (tr lab last) xi = rule_val o G e' (tr lab r) xi.
+Proof. exact @sum_product_rule_all. Qed.
+Print Assumptions C05_sum_product_rule_all.
+
+(** the factorised grammar REFINES the original one (Proofs/SP_refine.v): same labels below
+    [n0 = #labels of g]; in every environment that solves the equations of the fresh
+    nonterminals the equations of the original nonterminals are those of [G] ([rf_step]); the
+    fresh nonterminals are ranked by their position in their call's output and owned by the
+    call's left-hand side *)
+Theorem C05_factorize_refines :
+  forall doms g g' cs, fz_spec g g' cs -> wf_fhrg g ->
+    refines (to_sp_grammar doms g) (to_sp_grammar doms g') (length (fh_elabels g)) (M_of cs)
+            (rk_of (fh_elabels g) (fh_elabels g') cs) (owner_of (fh_elabels g) (fh_elabels g') cs).
+Proof. exact factorize_refines. Qed.
+Print Assumptions C05_factorize_refines.
+Theorem C05_wf_grammar_wf_fhrg :
+  forall doms g, wf_grammar (to_sp_grammar doms g) = true -> ids_are_positions g -> wf_fhrg g.
+Proof. exact wf_grammar_wf_fhrg. Qed.
+Print Assumptions C05_wf_grammar_wf_fhrg.
+
+(** ** C05_sum_product_nonrec: NON-RECURSIVE grammars, every commutative semiring.
+    [ranked G rank] (Proofs/SP_nonrec.v): [rank] strictly decreases from the left-hand side of
+    every rule to the nonterminals of its right-hand side.  Then the factorised grammar is
+    ranked too, and for every original nonterminal [l], every index tuple [xi], every
+    k >= #nonterminals of G' and k0 >= #nonterminals of G:
+        Zk G' k (number of l in G') xi = Zk G k0 (number of l in G) xi
+    -- by C01 ([C01_nonrec_all_trees]) both sides are the sum over ALL derivation trees, so the
+    sum over all derivations is unchanged, in every commutative semiring. *)
+Theorem C05_sum_product_nonrec :
+  forall doms m g orc g' rank,
+    wf_grammar (to_sp_grammar doms g) = true -> ids_are_positions g ->
+    orc_ok g (orc m) -> factorize_hrg_model m g orc = Ok g' ->
+    ranked (to_sp_grammar doms g) rank ->
+    (exists rank', ranked (to_sp_grammar doms g') rank')
+    /\ forall (R : Type) (o : sr_ops R), sr_ring o -> forall (w : env (R:=R)) l xi,
+         In l (fh_elabels g) -> el_term l = false ->
+         forall k k0, length (nonterminals (to_sp_grammar doms g')) <= k -> length (nonterminals (to_sp_grammar doms g)) <= k0 ->
+           Zk o (to_sp_grammar doms g') w k (lab_idx (fh_elabels g') l) xi
+           = Zk o (to_sp_grammar doms g) w k0 (lab_idx (fh_elabels g) l) xi.
+Proof. exact sum_product_nonrec_hrg. Qed.
+Print Assumptions C05_sum_product_nonrec.
+Theorem C05_sum_product_nonrec_fgg :
+  forall doms m f orc f' rank,
+    wf_grammar (to_sp_grammar doms (ff_hrg f)) = true -> ids_are_positions (ff_hrg f) ->
+    orc_ok (ff_hrg f) (orc m) -> factorize_fgg_model m f orc = Ok f' ->
+    ranked (to_sp_grammar doms (ff_hrg f)) rank ->
+    (exists rank', ranked (to_sp_grammar doms (ff_hrg f')) rank')
+    /\ forall (R : Type) (o : sr_ops R), sr_ring o -> forall (w : env (R:=R)) l xi,
+         In l (fh_elabels (ff_hrg f)) -> el_term l = false ->
+         forall k k0, length (nonterminals (to_sp_grammar doms (ff_hrg f'))) <= k
+                      -> length (nonterminals (to_sp_grammar doms (ff_hrg f))) <= k0 ->
+           Zk o (to_sp_grammar doms (ff_hrg f')) w k (lab_idx (fh_elabels (ff_hrg f')) l) xi
+           = Zk o (to_sp_grammar doms (ff_hrg f)) w k0 (lab_idx (fh_elabels (ff_hrg f)) l) xi.
+Proof. exact sum_product_nonrec_fgg. Qed.
+Print Assumptions C05_sum_product_nonrec_fgg.
+(** the start symbol at k = #nonterminals: exactly what the check function [fz_sp_check] compares *)
+Theorem C05_sum_product_nonrec_start :
+  forall doms m g orc g' rank,
+    wf_grammar (to_sp_grammar doms g) = true -> ids_are_positions g ->
+    orc_ok g (orc m) -> factorize_hrg_model m g orc = Ok g' ->
+    ranked (to_sp_grammar doms g) rank ->
+    forall (R : Type) (o : sr_ops R), sr_ring o -> forall (w : env (R:=R)) xi,
+      Zk o (to_sp_grammar doms g') w (length (nonterminals (to_sp_grammar doms g'))) (g_start (to_sp_grammar doms g')) xi
+      = Zk o (to_sp_grammar doms g) w (length (nonterminals (to_sp_grammar doms g))) (g_start (to_sp_grammar doms g)) xi.
+Proof. exact sum_product_nonrec_start. Qed.
+Print Assumptions C05_sum_product_nonrec_start.
+
+(** hypotheses satisfiable: S -> A(0,1) t(1,2) t(2,3), A(0,1) -> t(0,2) t(2,1), the decompositions
+    of min_fill; the factorised grammar has 4 rules and 2 fresh nonterminals; and the conclusion
+    evaluated in the Boolean semiring (every [xi], also with an empty domain) *)
+Example C05_sum_product_nonrec_example :
+  wf_grammar (to_sp_grammar [2] gN) = true /\ ids_are_positions gN
+  /\ orc_ok gN orcN /\ ranked (to_sp_grammar [2] gN) rankN
+  /\ exists g', factorize_hrg_model 0 gN (fun _ => orcN) = Ok g'
+                /\ length (fh_all_rules g') = 4 /\ length (fh_elabels g') = 5.
+Proof. exact gN_hyps. Qed.
+
+(** ** C05_sum_product_recursive: RECURSIVE grammars included, ordered commutative semirings
+    ([sr_ordered]: the natural order, as for C02).  There is a constant [c] (2 + the largest
+    number of fresh rules of one call + 1) such that for every original nonterminal and every
+    index tuple the Kleene iterates are sandwiched:
+        Zk G' k X' <= Zk G k X     and     Zk G k X <= Zk G' (c k) X'
+    (one step of G is simulated by at most c steps of G'); hence the two increasing chains have
+    the same upper bounds, the same suprema ([is_sup]: the least fixed point when it exists as
+    a limit in the carrier), and the same enclosures "lo <= some iterate, every iterate <= hi"
+    (what [enclosure] of C02 certifies). *)
+Theorem C05_sum_product_recursive :
+  forall doms m g orc g',
+    wf_grammar (to_sp_grammar doms g) = true -> ids_are_positions g ->
+    orc_ok g (orc m) -> factorize_hrg_model m g orc = Ok g' ->
+    exists c, forall (R : Type) (o : sr_ops R), sr_ring o -> sr_ordered o -> forall (w : env (R:=R)) l xi,
+      In l (fh_elabels g) ->
+      let G := to_sp_grammar doms g in let G' := to_sp_grammar doms g' in
+      let X := lab_idx (fh_elabels g) l in let X' := lab_idx (fh_elabels g') l in
+      (forall k, le o (Zk o G' w k X' xi) (Zk o G w k X xi))
+      /\ (forall k, le o (Zk o G w k X xi) (Zk o G' w (c * k) X' xi))
+      /\ (forall u, (forall k, le o (Zk o G w k X xi) u) <-> (forall k, le o (Zk o G' w k X' xi) u))
+      /\ (forall s, is_sup o (fun k => Zk o G w k X xi) s <-> is_sup o (fun k => Zk o G' w k X' xi) s)
+      /\ (forall lo hi,
+            ((exists j, le o lo (Zk o G w j X xi)) /\ (forall k, le o (Zk o G w k X xi) hi))
+            <-> ((exists j, le o lo (Zk o G' w j X' xi)) /\ (forall k, le o (Zk o G' w k X' xi) hi))).
+Proof. exact sum_product_recursive_hrg. Qed.
+Print Assumptions C05_sum_product_recursive.
+Theorem C05_sum_product_recursive_fgg :
+  forall doms m f orc f',
+    wf_grammar (to_sp_grammar doms (ff_hrg f)) = true -> ids_are_positions (ff_hrg f) ->
+    orc_ok (ff_hrg f) (orc m) -> factorize_fgg_model m f orc = Ok f' ->
+    exists c, forall (R : Type) (o : sr_ops R), sr_ring o -> sr_ordered o -> forall (w : env (R:=R)) l xi,
+      In l (fh_elabels (ff_hrg f)) ->
+      let G := to_sp_grammar doms (ff_hrg f) in let G' := to_sp_grammar doms (ff_hrg f') in
+      let X := lab_idx (fh_elabels (ff_hrg f)) l in let X' := lab_idx (fh_elabels (ff_hrg f')) l in
+      (forall k, le o (Zk o G' w k X' xi) (Zk o G w k X xi))
+      /\ (forall k, le o (Zk o G w k X xi) (Zk o G' w (c * k) X' xi))
+      /\ (forall u, (forall k, le o (Zk o G w k X xi) u) <-> (forall k, le o (Zk o G' w k X' xi) u))
+      /\ (forall s, is_sup o (fun k => Zk o G w k X xi) s <-> is_sup o (fun k => Zk o G' w k X' xi) s)
+      /\ (forall lo hi,
+            ((exists j, le o lo (Zk o G w j X xi)) /\ (forall k, le o (Zk o G w k X xi) hi))
+            <-> ((exists j, le o lo (Zk o G' w j X' xi)) /\ (forall k, le o (Zk o G' w k X' xi) hi))).
+Proof. exact sum_product_recursive_fgg. Qed.
+Print Assumptions C05_sum_product_recursive_fgg.
+
+(** solutions and pre-fixed points, recursive grammars included.  Every commutative semiring:
+    every solution of the equations of G' is, on the original nonterminals, a solution of the
+    equations of G, and every solution of G extends to a solution of G' with the same values on
+    the original labels.  Ordered semirings: every pre-fixed point of G extends to a pre-fixed
+    point of G' with the same values on the original labels, and every pre-fixed point of G' is
+    a pre-fixed point of G -- so (Park, [C02_park]) the least pre-fixed points agree on the
+    original nonterminals whenever they exist. *)
+Theorem C05_sum_product_fixpoints :
+  forall doms m g orc g',
+    wf_grammar (to_sp_grammar doms g) = true -> ids_are_positions g ->
+    orc_ok g (orc m) -> factorize_hrg_model m g orc = Ok g' ->
+    let G := to_sp_grammar doms g in let G' := to_sp_grammar doms g' in
+    (forall (R : Type) (o : sr_ops R), sr_ring o -> forall w : env (R:=R),
+       (forall x : env (R:=R), fixpoint o G' w x -> fixpoint o G w x)
+       /\ (forall x : env (R:=R), fixpoint o G w x ->
+             exists x' : env (R:=R), fixpoint o G' w x'
+               /\ forall l, In l (fh_elabels g) -> x' (lab_idx (fh_elabels g') l) = x (lab_idx (fh_elabels g) l)))
+    /\ forall (R : Type) (o : sr_ops R), sr_ring o -> sr_ordered o -> forall w : env (R:=R),
+         (forall u : env (R:=R), SP_mono.env_le o (step o G w u) u ->
+            exists u' : env (R:=R), SP_mono.env_le o (step o G' w u') u'
+              /\ forall l, In l (fh_elabels g) -> u' (lab_idx (fh_elabels g') l) = u (lab_idx (fh_elabels g) l))
+         /\ (forall u' : env (R:=R), SP_mono.env_le o (step o G' w u') u' ->
+               forall X xi, is_term G X = false -> le o (step o G w u' X xi) (u' X xi)).
+Proof. exact sum_product_fixpoints_hrg. Qed.
+Print Assumptions C05_sum_product_fixpoints.
+
+(** hypotheses satisfiable: X(0) -> t(0,1) t(1,2) X(2) | u(0), recursive; the first rule is split *)
+Example C05_sum_product_recursive_example :
+  wf_grammar (to_sp_grammar [2] gR) = true /\ ids_are_positions gR
+  /\ orc_ok gR orcR
+  /\ exists g', factorize_hrg_model 0 gR (fun _ => orcR) = Ok g'
+                /\ length (fh_all_rules g') = 3 /\ length (fh_elabels g') = 4.
+Proof. exact gR_hyps. Qed.
+
+(** the abstract theorems behind (Proofs/SP_refine.v), for any refinement by fresh nonterminals *)
+Theorem C05_refines_nonrec :
+  forall G G' n0 M rk owner, refines G G' n0 M rk owner ->
+  forall (R : Type) (o : sr_ops R), sr_ring o -> forall rank, ranked G rank ->
+  forall (w : env (R:=R)) X xi, is_term G X = false ->
+  forall k k0, length (nonterminals G') <= k -> length (nonterminals G) <= k0 ->
+    Zk o G' w k X xi = Zk o G w k0 X xi.
+Proof. exact @refines_Zk_nonrec. Qed.
+Print Assumptions C05_refines_nonrec.
+Example C05_refines_example :
+  exists g' cs, factorize_hrg_model 0 gN (fun _ => orcN) = Ok g'
+    /\ refines (to_sp_grammar [2] gN) (to_sp_grammar [2] g') 3 (M_of cs)
+               (rk_of (fh_elabels gN) (fh_elabels g') cs) (owner_of (fh_elabels gN) (fh_elabels g') cs).
+Proof. exact gN_refines. Qed.
+Theorem C05_refines_sandwich :
+  forall G G' n0 M rk owner, refines G G' n0 M rk owner ->
+  forall (R : Type) (o : sr_ops R), sr_ring o -> sr_ordered o -> forall (w : env (R:=R)) k X xi, X < n0 ->
+    le o (Zk o G' w k X xi) (Zk o G w k X xi) /\ le o (Zk o G w k X xi) (Zk o G' w ((M + 2) * k) X xi).
+Proof. exact @Zk_refines_sandwich. Qed.
+Print Assumptions C05_refines_sandwich.
